@@ -222,8 +222,14 @@ where
         let mut seq = if from_sample {
             StripedSequence::<A, U32>::sample(srng, Background::<A>::uniform(), l)
         } else {
+            // a REUSED buffer: it first held a longer sequence (any stale symbol left in the padding would show up
+            // as a finite score past the last valid position)
             let rk = random_ranks::<A>(rng, l, 0.05);
-            Pipeline::<A, _>::dispatch().stripe(A::syms(&rk))
+            let longer = random_ranks::<A>(rng, l + 40 + l % 61 * 15, 0.0);
+            let pli = Pipeline::<A, _>::dispatch();
+            let mut buf = pli.stripe(A::syms(&longer));
+            pli.stripe_into(A::syms(&rk), &mut buf);
+            buf
         };
         let ranks: Vec<usize> = (0..seq.len()).map(|i| lightmotif::abc::Symbol::as_index(&seq[i])).collect();
         seq.configure(&pssm);
